@@ -8,7 +8,7 @@ Open Scope N_scope.
 Definition cipher_match (tx rx : cipher) : Prop :=
   c_kind tx = c_kind rx /\ c_alg tx = c_alg rx /\ c_key tx = c_key rx /\ c_iv tx = c_iv rx /\
   c_pos tx = c_pos rx /\ c_bs tx = c_bs rx /\
-  (c_kind tx = KCbc -> c_read tx = false /\ c_read rx = true /\ (1 <= c_bs tx <= 256)%nat).
+  (c_kind tx = KCbc -> c_read tx = false /\ c_read rx = true /\ (c_bs tx = 8 \/ c_bs tx = 16)%nat).
 
 (* which MAC state accompanies which cipher (what establishKeys / setTrafficSecret produce) *)
 Definition half_wf (h : half) : Prop :=
@@ -76,12 +76,13 @@ Lemma rt_stream tv a key iv rd rd' pos bs m ts nc nm nc' nm' sec typ v1 v2 paylo
   tv <> V13 -> len payload < 65536 -> ts + 1 < 18446744073709551616 ->
   let tx := mkHalf tv (Some (mkCipher KStream a key iv rd pos bs)) (Some m) ts nc nm sec in
   let rx := mkHalf tv (Some (mkCipher KStream a key iv rd' pos bs)) (Some m) ts nc' nm' sec in
-  exists body c2 c2',
+  exists body pos2,
     encrypt P tx (hdr5 typ v1 v2 (len payload)) payload rnd
-      = Ok (hdr5 typ v1 v2 (len body) ++ body, mkHalf tv (Some c2) (Some m) (ts + 1) nc nm sec) /\
+      = Ok (hdr5 typ v1 v2 (len body) ++ body,
+            mkHalf tv (Some (mkCipher KStream a key iv rd pos2 bs)) (Some m) (ts + 1) nc nm sec) /\
     decrypt P rx (hdr5 typ v1 v2 (len body) ++ body)
-      = Ok (payload, typ, mkHalf tv (Some c2') (Some m) (ts + 1) nc' nm' sec) /\
-    cipher_match c2 c2' /\ length body = (length payload + mac_len (m_alg m))%nat.
+      = Ok (payload, typ, mkHalf tv (Some (mkCipher KStream a key iv rd' pos2 bs)) (Some m) (ts + 1) nc' nm' sec) /\
+    length body = (length payload + mac_len (m_alg m))%nat.
 Proof.
   intros Hv Hpl Hseq tx rx. subst tx rx.
   set (hdr := hdr5 typ v1 v2 (len payload)).
@@ -92,10 +93,11 @@ Proof.
   assert (Ld1 : length d1 = length payload) by (unfold d1; rewrite bxor_length, (stream_len P HP); lia).
   assert (Ld2 : length d2 = length mac) by (unfold d2; rewrite bxor_length, (stream_len P HP); lia).
   assert (Hv' : (tv =? V13) = false) by lia.
-  exists (d1 ++ d2), (mkCipher KStream a key iv rd (pos + len payload + len mac) bs),
-         (mkCipher KStream a key iv rd' (pos + len (d1 ++ d2)) bs).
-  split; [|split; [|split]].
-  - unfold encrypt. cbn [h_cipher].
+  exists (d1 ++ d2), (pos + len (d1 ++ d2)).
+  split; [|split].
+  - replace (pos + len (d1 ++ d2)) with (pos + len payload + len mac)
+      by (rewrite len_app; unfold len; rewrite Ld1, Ld2; lia).
+    unfold encrypt. cbn [h_cipher].
     match goal with |- context [enc_explicit ?h ?c ?r] => change (enc_explicit h c r) with (@Ok bytes []) end. cbn [bind].
     match goal with |- context [enc_cipher P ?h ?c ?r ?e ?p] => change (enc_cipher P h c r e p)
       with (@Ok (bytes * cipher) (hdr ++ d1 ++ d2, mkCipher KStream a key iv rd (pos + len payload + len mac) bs)) end.
@@ -121,17 +123,384 @@ Proof.
     replace (length payload + mac_len (m_alg m) <? mac_len (m_alg m))%nat with false
       by (symmetry; apply Nat.ltb_ge; lia).
     replace (length payload + mac_len (m_alg m) - mac_len (m_alg m) - 0)%nat with (length payload) by lia.
+    change (firstn 3 (hdr5 typ v1 v2 (len (d1 ++ d2)) ++ d1 ++ d2) ++ be16 (N.of_nat (length payload))) with hdr.
     rewrite firstn_app_exact by reflexivity.
     unfold slice. rewrite skipn_app_exact by reflexivity.
     replace (length payload + mac_len (m_alg m) - length payload)%nat with (length mac) by lia.
     rewrite firstn_all.
-    change (firstn 3 (hdr5 typ v1 v2 (len (d1 ++ d2)) ++ d1 ++ d2) ++ be16 (N.of_nat (length payload))) with hdr.
     unfold tls10mac. fold mac.
     replace (bytes_eqb mac mac) with true by (symmetry; apply bytes_eqb_eq; reflexivity).
     cbn [andb bind]. rewrite inc_seq_ok by exact Hseq. reflexivity.
-  - unfold cipher_match. cbn [c_kind c_alg c_key c_iv c_pos c_bs]. rewrite len_app. unfold len.
-    repeat split; try lia; try discriminate. rewrite Ld1, Ld2. lia.
   - rewrite app_length. lia.
+Qed.
+
+
+(* ---- TLS 1.2 AES-GCM: explicit nonce = sequence number ---- *)
+Lemma rt_prefix tv a key iv rd rd' pos bs ts nc nm nc' nm' sec typ v1 v2 payload rnd :
+  tv <> V13 -> len payload < 65536 -> ts + 1 < 18446744073709551616 ->
+  let c := mkCipher KAeadPrefix a key iv rd pos bs in
+  let c' := mkCipher KAeadPrefix a key iv rd' pos bs in
+  let tx := mkHalf tv (Some c) None ts nc nm sec in
+  let rx := mkHalf tv (Some c') None ts nc' nm' sec in
+  exists body,
+    encrypt P tx (hdr5 typ v1 v2 (len payload)) payload rnd
+      = Ok (hdr5 typ v1 v2 (len body) ++ body, mkHalf tv (Some c) None (ts + 1) nc nm sec) /\
+    decrypt P rx (hdr5 typ v1 v2 (len body) ++ body)
+      = Ok (payload, typ, mkHalf tv (Some c') None (ts + 1) nc' nm' sec) /\
+    length body = (length payload + 24)%nat /\
+    firstn 8 body = seq8 ts.
+Proof.
+  intros Hv Hpl Hseq c c' tx rx. subst tx rx c c'.
+  set (hdr := hdr5 typ v1 v2 (len payload)).
+  set (ct := aead_seal P a key (firstn 4 iv ++ seq8 ts) (seq8 ts ++ hdr) payload).
+  assert (Lct : length ct = (length payload + 16)%nat) by apply seal_length.
+  assert (Hv' : (tv =? V13) = false) by lia.
+  exists (seq8 ts ++ ct).
+  split; [|split; [|split]].
+  - unfold encrypt. cbn [h_cipher].
+    match goal with |- context [enc_explicit ?h ?c ?r] => change (enc_explicit h c r) with (@Ok bytes (seq8 ts)) end.
+    cbn [bind]. unfold enc_cipher. cbn [c_kind h_vers]. rewrite Hv'.
+    match goal with |- context [bind (Ok (?r, ?c)) _] =>
+      change r with (hdr ++ seq8 ts ++ ct) end.
+    cbn [bind fst snd]. rewrite inc_seq_ok by exact Hseq.
+    unfold hdr, hdr5 at 1. cbn [app]. rewrite set_len5. do 2 f_equal.
+    fold (hdr5 typ v1 v2 (len payload)). rewrite len5. reflexivity.
+  - unfold decrypt. cbn [h_vers]. rewrite Hv'. cbn [andb h_cipher].
+    change (length (hdr5 typ v1 v2 (len (seq8 ts ++ ct)) ++ seq8 ts ++ ct) <? recordHeaderLen)%nat with false.
+    cbv iota.
+    unfold dec_cipher. cbn [c_kind h_vers]. rewrite Hv'.
+    match goal with |- context [bind (if ?b then _ else _) _] => change b with false end. cbv iota.
+    match goal with |- context [aead_open P ?a0 ?k0 ?n0 ?ad0 ?c0] =>
+      change (aead_open P a0 k0 n0 ad0 c0)
+        with (aead_open P a key (firstn 4 iv ++ seq8 ts)
+                (seq8 ts ++ [typ; v1; v2] ++ be16 (N.of_nat (length ct - aead_overhead))) ct) end.
+    replace (N.of_nat (length ct - aead_overhead)) with (len payload)
+      by (rewrite Lct; unfold len, aead_overhead; lia).
+    change (seq8 ts ++ [typ; v1; v2] ++ be16 (len payload)) with (seq8 ts ++ hdr).
+    unfold ct at 1. rewrite (aead_rt P HP). cbn [bind].
+    unfold dec_inner13. cbn [h_vers]. rewrite Hv'. cbn [bind fst snd].
+    unfold dec_mac. cbn [h_mac bind]. rewrite inc_seq_ok by exact Hseq. reflexivity.
+  - rewrite app_length, seq8_length. lia.
+  - apply firstn_app_exact. rewrite seq8_length. reflexivity.
+Qed.
+
+(* ---- TLS 1.2 ChaCha20-Poly1305: no explicit nonce, nonce = iv xor seq ---- *)
+Lemma rt_xor12 tv a key iv rd rd' pos bs ts nc nm nc' nm' sec typ v1 v2 payload rnd :
+  tv <> V13 -> len payload < 65536 -> ts + 1 < 18446744073709551616 ->
+  let c := mkCipher KAeadXor a key iv rd pos bs in
+  let c' := mkCipher KAeadXor a key iv rd' pos bs in
+  let tx := mkHalf tv (Some c) None ts nc nm sec in
+  let rx := mkHalf tv (Some c') None ts nc' nm' sec in
+  exists body,
+    encrypt P tx (hdr5 typ v1 v2 (len payload)) payload rnd
+      = Ok (hdr5 typ v1 v2 (len body) ++ body, mkHalf tv (Some c) None (ts + 1) nc nm sec) /\
+    decrypt P rx (hdr5 typ v1 v2 (len body) ++ body)
+      = Ok (payload, typ, mkHalf tv (Some c') None (ts + 1) nc' nm' sec) /\
+    length body = (length payload + 16)%nat.
+Proof.
+  intros Hv Hpl Hseq c c' tx rx. subst tx rx c c'.
+  set (hdr := hdr5 typ v1 v2 (len payload)).
+  set (ct := aead_seal P a key (firstn 4 iv ++ bxor (skipn 4 iv) (seq8 ts)) (seq8 ts ++ hdr) payload).
+  assert (Lct : length ct = (length payload + 16)%nat) by apply seal_length.
+  assert (Hv' : (tv =? V13) = false) by lia.
+  exists ct.
+  split; [|split].
+  - unfold encrypt. cbn [h_cipher].
+    match goal with |- context [enc_explicit ?h ?c ?r] => change (enc_explicit h c r) with (@Ok bytes []) end.
+    cbn [bind]. unfold enc_cipher. cbn [c_kind h_vers]. rewrite Hv'.
+    match goal with |- context [bind (Ok (?r, ?c)) _] => change r with (hdr ++ ct) end.
+    cbn [bind fst snd]. rewrite inc_seq_ok by exact Hseq.
+    unfold hdr, hdr5 at 1. cbn [app]. rewrite set_len5. do 2 f_equal.
+    fold (hdr5 typ v1 v2 (len payload)). rewrite len5. reflexivity.
+  - unfold decrypt. cbn [h_vers]. rewrite Hv'. cbn [andb h_cipher].
+    change (length (hdr5 typ v1 v2 (len ct) ++ ct) <? recordHeaderLen)%nat with false.
+    cbv iota.
+    unfold dec_cipher. cbn [c_kind h_vers]. rewrite Hv'.
+    match goal with |- context [bind (if ?b then _ else _) _] => change b with false end. cbv iota.
+    match goal with |- context [aead_open P ?a0 ?k0 ?n0 ?ad0 ?c0] =>
+      change (aead_open P a0 k0 n0 ad0 c0)
+        with (aead_open P a key (firstn 4 iv ++ bxor (skipn 4 iv) (seq8 ts))
+                (seq8 ts ++ [typ; v1; v2] ++ be16 (N.of_nat (length ct - aead_overhead))) ct) end.
+    replace (N.of_nat (length ct - aead_overhead)) with (len payload)
+      by (rewrite Lct; unfold len, aead_overhead; lia).
+    change (seq8 ts ++ [typ; v1; v2] ++ be16 (len payload)) with (seq8 ts ++ hdr).
+    unfold ct at 1. rewrite (aead_rt P HP). cbn [bind].
+    unfold dec_inner13. cbn [h_vers]. rewrite Hv'. cbn [bind fst snd].
+    unfold dec_mac. cbn [h_mac bind]. rewrite inc_seq_ok by exact Hseq. reflexivity.
+  - exact Lct.
+Qed.
+
+(* ---- TLS 1.3: inner content type, header as additional data ---- *)
+Lemma rt_tls13 a key iv rd rd' pos bs ts nc nm nc' nm' sec typ v1 v2 payload rnd :
+  typ <> 0 -> len payload <= maxPlaintext -> ts + 1 < 18446744073709551616 ->
+  let c := mkCipher KAeadXor a key iv rd pos bs in
+  let c' := mkCipher KAeadXor a key iv rd' pos bs in
+  let tx := mkHalf V13 (Some c) None ts nc nm sec in
+  let rx := mkHalf V13 (Some c') None ts nc' nm' sec in
+  exists body,
+    encrypt P tx (hdr5 typ v1 v2 (len payload)) payload rnd
+      = Ok (hdr5 rtAppData v1 v2 (len body) ++ body, mkHalf V13 (Some c) None (ts + 1) nc nm sec) /\
+    decrypt P rx (hdr5 rtAppData v1 v2 (len body) ++ body)
+      = Ok (payload, typ, mkHalf V13 (Some c') None (ts + 1) nc' nm' sec) /\
+    length body = (length payload + 17)%nat.
+Proof.
+  intros Htyp Hpl Hseq c c' tx rx. subst tx rx c c'.
+  set (n13 := len payload + 1 + N.of_nat aead_overhead).
+  set (hdr13 := hdr5 rtAppData v1 v2 n13).
+  set (ct := aead_seal P a key (firstn 4 iv ++ bxor (skipn 4 iv) (seq8 ts)) hdr13 (payload ++ [typ])).
+  assert (Lct : length ct = (length payload + 17)%nat).
+  { unfold ct. rewrite seal_length, app_length. cbn [length]. lia. }
+  assert (Ln : len ct = n13) by (unfold len, n13, aead_overhead; rewrite Lct; unfold len; lia).
+  exists ct.
+  split; [|split].
+  - unfold encrypt. cbn [h_cipher].
+    match goal with |- context [enc_explicit ?h ?c ?r] => change (enc_explicit h c r) with (@Ok bytes []) end.
+    cbn [bind].
+    match goal with |- context [enc_cipher P ?h ?c ?r ?e ?p] =>
+      change (enc_cipher P h c r e p) with (@Ok (bytes * cipher) (hdr13 ++ ct, c)) end.
+    cbn [bind fst snd]. rewrite inc_seq_ok by exact Hseq.
+    unfold hdr13, hdr5 at 1. cbn [app]. rewrite set_len5. do 2 f_equal.
+    fold (hdr5 rtAppData v1 v2 n13). rewrite len5. reflexivity.
+  - rewrite Ln. fold hdr13. unfold decrypt.
+    change (length (hdr13 ++ ct) <? recordHeaderLen)%nat with false.
+    change ((h_vers (mkHalf V13 (Some (mkCipher KAeadXor a key iv rd' pos bs)) None ts nc' nm' sec) =? V13)
+             && (nth 0 (hdr13 ++ ct) 0 =? rtCCS)) with false.
+    cbv iota. cbn [h_cipher].
+    match goal with |- context [dec_cipher P ?h ?c ?r] =>
+      change (dec_cipher P h c r)
+        with (match aead_open P a key (firstn 4 iv ++ bxor (skipn 4 iv) (seq8 ts)) hdr13 ct with
+              | None => Err a_bad_record_mac
+              | Some pt => Ok (pt, ct, 0%nat, true, mkCipher KAeadXor a key iv rd' pos bs)
+              end) end.
+    unfold ct at 1. rewrite (aead_rt P HP). cbn [bind].
+    unfold dec_inner13.
+    change (h_vers (mkHalf V13 (Some (mkCipher KAeadXor a key iv rd' pos bs)) None ts nc' nm' sec) =? V13) with true.
+    change (negb (nth 0 (hdr13 ++ ct) 0 =? rtAppData)) with false.
+    cbv iota.
+    replace (maxPlaintext + 1 <? len (payload ++ [typ])) with false
+      by (symmetry; rewrite len_app; unfold len at 2; cbn [length]; unfold maxPlaintext in *; lia).
+    rewrite strip13_ok by exact Htyp. cbn [bind fst snd].
+    unfold dec_mac. cbn [h_mac bind]. rewrite inc_seq_ok by exact Hseq. reflexivity.
+  - exact Lct.
+Qed.
+
+(* ---- CBC + HMAC (TLS 1.0 implicit chained IV; TLS 1.1+ explicit random IV) ---- *)
+Lemma rt_cbc tv a key iv pos bs m ts nc nm nc' nm' sec typ v1 v2 payload rnd :
+  tv <> V13 -> len payload < 65536 -> ts + 1 < 18446744073709551616 ->
+  (1 <= bs <= 256)%nat -> (bs <= length rnd)%nat ->
+  let tx := mkHalf tv (Some (mkCipher KCbc a key iv false pos bs)) (Some m) ts nc nm sec in
+  let rx := mkHalf tv (Some (mkCipher KCbc a key iv true pos bs)) (Some m) ts nc' nm' sec in
+  exists body iv2,
+    encrypt P tx (hdr5 typ v1 v2 (len payload)) payload rnd
+      = Ok (hdr5 typ v1 v2 (len body) ++ body,
+            mkHalf tv (Some (mkCipher KCbc a key iv2 false pos bs)) (Some m) (ts + 1) nc nm sec) /\
+    decrypt P rx (hdr5 typ v1 v2 (len body) ++ body)
+      = Ok (payload, typ, mkHalf tv (Some (mkCipher KCbc a key iv2 true pos bs)) (Some m) (ts + 1) nc' nm' sec) /\
+    (length payload <= length body <= length payload + mac_len (m_alg m) + 2 * bs)%nat /\
+    firstn (explicit_nonce_len tx) body = firstn (explicit_nonce_len tx) rnd.
+Proof.
+  intros Hv Hpl Hseq Hbs Hrnd tx rx. subst tx rx.
+  set (hdr := hdr5 typ v1 v2 (len payload)).
+  set (mac := hmac P (m_alg m) (m_key m) (seq8 ts ++ hdr ++ payload)).
+  assert (Lmac : length mac = mac_len (m_alg m)) by apply (hmac_len P HP).
+  set (ptl := (length payload + length mac)%nat).
+  set (pl := (bs - ptl mod bs)%nat).
+  set (dst := payload ++ mac ++ repeat ((N.of_nat pl - 1) mod 256) pl).
+  assert (Hmodlt : (ptl mod bs < bs)%nat) by (apply Nat.mod_upper_bound; lia).
+  assert (Hpl1 : (1 <= pl <= bs)%nat) by (unfold pl; lia).
+  assert (Ldst : length dst = (ptl + pl)%nat).
+  { unfold dst, ptl. rewrite !app_length, repeat_length. lia. }
+  assert (Hdmod : (length dst mod bs = 0)%nat) by (rewrite Ldst; unfold pl; apply pad_multiple; lia).
+  assert (Hv' : (tv =? V13) = false) by lia.
+  assert (Hbs0 : (bs =? 0)%nat = false) by (apply Nat.eqb_neq; lia).
+  (* the IV used for this record, and the explicit part of the record *)
+  set (ex := if (V11 <=? tv)%N then firstn bs rnd else []).
+  set (ivu := if (V11 <=? tv)%N then firstn bs rnd else iv).
+  assert (Lex : length ex = if (V11 <=? tv)%N then bs else 0%nat).
+  { unfold ex. destruct (V11 <=? tv)%N; [apply firstn_length_le; lia|reflexivity]. }
+  set (ct := cbc_enc P a key ivu dst).
+  assert (Lct : length ct = length dst) by apply (cbc_enc_len P HP).
+  set (iv2 := last_block bs ivu ct).
+  assert (Enl : forall rd x y, explicit_nonce_len (mkHalf tv (Some (mkCipher KCbc a key iv rd pos bs)) (Some m) ts x y sec)
+                 = if (V11 <=? tv)%N then bs else 0%nat) by reflexivity.
+  exists (ex ++ ct), iv2.
+  split; [|split; [|split]].
+  - unfold encrypt. cbn [h_cipher].
+    assert (E1 : enc_explicit (mkHalf tv (Some (mkCipher KCbc a key iv false pos bs)) (Some m) ts nc nm sec)
+                   (mkCipher KCbc a key iv false pos bs) rnd = Ok ex).
+    { unfold enc_explicit. rewrite Enl. unfold ex. cbn [is_cbc c_kind negb andb].
+      destruct (V11 <=? tv)%N; [|reflexivity].
+      replace (0 <? bs)%nat with true by (symmetry; apply Nat.ltb_lt; lia).
+      replace (length rnd <? bs)%nat with false by (symmetry; apply Nat.ltb_ge; lia). reflexivity. }
+    rewrite E1. cbn [bind].
+    assert (E2 : enc_cipher P (mkHalf tv (Some (mkCipher KCbc a key iv false pos bs)) (Some m) ts nc nm sec)
+                   (mkCipher KCbc a key iv false pos bs) (hdr ++ ex) ex payload
+                 = Ok ((hdr ++ ex) ++ ct, mkCipher KCbc a key iv2 false pos bs)).
+    { unfold enc_cipher. cbn [c_kind h_mac h_seq c_bs]. rewrite Hbs0.
+      change (firstn recordHeaderLen (hdr ++ ex)) with hdr.
+      unfold tls10mac. fold mac. fold ptl. fold pl. fold dst.
+      assert (Ec1 : match ex with [] => mkCipher KCbc a key iv false pos bs
+                    | _ :: _ => set_iv (mkCipher KCbc a key iv false pos bs) ex end
+                    = mkCipher KCbc a key ivu false pos bs).
+      { unfold ex, ivu. destruct (V11 <=? tv)%N; [|reflexivity].
+        destruct (firstn bs rnd) eqn:Ef; [|reflexivity].
+        apply (f_equal (@length N)) in Ef. rewrite firstn_length_le in Ef by lia. cbn in Ef. lia. }
+      rewrite Ec1. unfold crypt_blocks. cbn [c_bs c_read c_alg c_key c_iv c_kind c_pos].
+      rewrite Hdmod. cbn [Nat.eqb negb bind fst snd]. reflexivity. }
+    rewrite E2. cbn [bind fst snd]. rewrite inc_seq_ok by exact Hseq.
+    unfold hdr, hdr5 at 1. cbn [app]. rewrite set_len5. do 2 f_equal.
+    fold (hdr5 typ v1 v2 (len payload)). rewrite <- app_assoc. rewrite len5. reflexivity.
+  - unfold decrypt. cbn [h_vers]. rewrite Hv'. cbn [andb h_cipher].
+    change (length (hdr5 typ v1 v2 (len (ex ++ ct)) ++ ex ++ ct) <? recordHeaderLen)%nat with false.
+    cbv iota.
+    assert (D1 : dec_cipher P (mkHalf tv (Some (mkCipher KCbc a key iv true pos bs)) (Some m) ts nc' nm' sec)
+                   (mkCipher KCbc a key iv true pos bs) (hdr5 typ v1 v2 (len (ex ++ ct)) ++ ex ++ ct)
+                 = Ok ([], dst, pl, true, mkCipher KCbc a key iv2 true pos bs)).
+    { unfold dec_cipher. rewrite Enl. cbn [c_kind h_mac c_bs]. rewrite Hbs0.
+      change (skipn recordHeaderLen (hdr5 typ v1 v2 (len (ex ++ ct)) ++ ex ++ ct)) with (ex ++ ct).
+      assert (Lb : length (ex ++ ct) = ((if (V11 <=? tv)%N then bs else 0) + length dst)%nat)
+        by (rewrite app_length, Lex, Lct; reflexivity).
+      assert (Hm1 : (length (ex ++ ct) mod bs = 0)%nat).
+      { rewrite Lb. destruct (V11 <=? tv)%N; [|exact Hdmod].
+        rewrite <- Nat.add_mod_idemp_l, Nat.mod_same by lia. exact Hdmod. }
+      rewrite Hm1. cbn [Nat.eqb negb orb].
+      assert (Hmin : (round_up (m_size m + 1) bs <= length dst)%nat).
+      { apply round_up_le; [lia|exact Hdmod|]. rewrite Ldst. unfold ptl, m_size. lia. }
+      replace (length (ex ++ ct) <? (if (V11 <=? tv)%N then bs else 0%nat) + round_up (m_size m + 1) bs)%nat
+        with false by (symmetry; apply Nat.ltb_ge; rewrite Lb; lia).
+      assert (Ec1 : (if (0 <? (if (V11 <=? tv)%N then bs else 0%nat))%nat
+                     then set_iv (mkCipher KCbc a key iv true pos bs) (firstn (if (V11 <=? tv)%N then bs else 0%nat) (ex ++ ct))
+                     else mkCipher KCbc a key iv true pos bs) = mkCipher KCbc a key ivu true pos bs).
+      { unfold ivu. destruct (V11 <=? tv)%N eqn:E11.
+        - replace (0 <? bs)%nat with true by (symmetry; apply Nat.ltb_lt; lia).
+          rewrite firstn_app_exact by (rewrite Lex; reflexivity). unfold ex. rewrite ?E11. reflexivity.
+        - reflexivity. }
+      assert (Eb : (if (0 <? (if (V11 <=? tv)%N then bs else 0%nat))%nat
+                    then skipn (if (V11 <=? tv)%N then bs else 0%nat) (ex ++ ct) else ex ++ ct) = ct).
+      { destruct (V11 <=? tv)%N eqn:E11.
+        - replace (0 <? bs)%nat with true by (symmetry; apply Nat.ltb_lt; lia).
+          apply skipn_app_exact. rewrite Lex. reflexivity.
+        - cbn. unfold ex. rewrite ?E11. reflexivity. }
+      rewrite Ec1, Eb. unfold crypt_blocks. cbn [c_bs c_read c_alg c_key c_iv c_kind c_pos].
+      rewrite Lct, Hdmod. cbn [Nat.eqb negb bind fst snd].
+      assert (Hdec : cbc_dec P a key ivu ct = dst) by (unfold ct; apply (cbc_rt P HP)).
+      rewrite Hdec.
+      unfold dst at 1. rewrite app_assoc. rewrite extract_padding_ok by lia. reflexivity. }
+    rewrite D1. cbn [bind]. unfold dec_inner13. cbn [h_vers]. rewrite Hv'. cbn [bind fst snd].
+    unfold dec_mac. cbn [h_mac h_seq]. unfold m_size. rewrite Ldst.
+    replace (ptl + pl <? mac_len (m_alg m))%nat with false by (symmetry; apply Nat.ltb_ge; unfold ptl; lia).
+    replace (ptl + pl - mac_len (m_alg m) - pl)%nat with (length payload) by (unfold ptl; lia).
+    change (firstn 3 (hdr5 typ v1 v2 (len (ex ++ ct)) ++ ex ++ ct) ++ be16 (N.of_nat (length payload))) with hdr.
+    unfold dst. rewrite firstn_app_exact by reflexivity.
+    unfold slice. rewrite skipn_app_exact by reflexivity.
+    replace (length payload + mac_len (m_alg m) - length payload)%nat with (length mac) by lia.
+    rewrite firstn_app_exact by reflexivity.
+    unfold tls10mac. fold mac.
+    replace (bytes_eqb mac mac) with true by (symmetry; apply bytes_eqb_eq; reflexivity).
+    cbn [andb bind]. rewrite inc_seq_ok by exact Hseq. reflexivity.
+  - rewrite app_length, Lex, Lct, Ldst. unfold ptl. destruct (V11 <=? tv)%N; lia.
+  - rewrite Enl. unfold ex. destruct (V11 <=? tv)%N; [|reflexivity].
+    rewrite firstn_app_exact by (rewrite firstn_length_le; lia). reflexivity.
+Qed.
+
+
+(* ---- all cipher kinds ---- *)
+Theorem encrypt_decrypt (tx rx : half) (typ v1 v2 : N) (payload rnd : bytes) :
+  synced tx rx ->
+  typ <> 0 ->
+  len payload <= maxPlaintext ->
+  h_seq tx + 1 < 18446744073709551616 ->
+  (explicit_nonce_len tx <= length rnd)%nat ->
+  exists body tx' rx',
+    encrypt P tx (hdr5 typ v1 v2 (len payload)) payload rnd
+      = Ok (hdr5 (outer_typ (h_vers tx) typ) v1 v2 (len body) ++ body, tx') /\
+    decrypt P rx (hdr5 (outer_typ (h_vers tx) typ) v1 v2 (len body) ++ body) = Ok (payload, typ, rx') /\
+    synced tx' rx' /\
+    len payload <= len body <= len payload + body_slack (h_vers tx) /\
+    h_seq tx' = h_seq tx + 1 /\ h_vers tx' = h_vers tx /\ h_secret tx' = h_secret tx /\
+    h_mac tx' = h_mac tx /\
+    (forall c, h_cipher tx = Some c -> exists c', h_cipher tx' = Some c' /\ c_kind c' = c_kind c /\ c_bs c' = c_bs c).
+Proof.
+  intros Hs Htyp Hlen Hseq Hrnd.
+  destruct tx as [tv tc tm ts tnc tnm tsec], rx as [rv rc rm rs rnc rnm rsec].
+  unfold synced, half_wf in Hs. cbn [h_vers h_mac h_seq h_secret h_cipher] in *.
+  destruct Hs as (<- & <- & <- & <- & Hwf & Hm).
+  destruct tc as [[k a key iv rd pos bs]|]; [|contradiction].
+  destruct rc as [[k' a' key' iv' rd' pos' bs']|]; [|contradiction].
+  destruct Hm as (Hk & Ha & Hkey & Hiv & Hpos & Hbs & Hcbc). cbn [c_kind c_alg c_key c_iv c_pos c_bs c_read] in *.
+  subst k' a' key' iv' pos' bs'.
+  assert (Hpl : len payload < 65536) by (unfold maxPlaintext in Hlen; lia).
+  destruct k.
+  - (* RC4 *)
+    destruct Hwf as ([m ->] & Hv).
+    destruct (rt_stream tv a key iv rd rd' pos bs m ts tnc tnm rnc rnm tsec typ v1 v2 payload rnd Hv Hpl Hseq)
+      as (body & pos2 & He & Hd & Hl).
+    assert (Hv' : (tv =? V13) = false) by lia.
+    unfold outer_typ, body_slack. rewrite Hv'.
+    exists body. eexists. eexists. split; [exact He|]. split; [exact Hd|].
+    pose proof (mac_len_le (m_alg m)).
+    unfold synced, half_wf, cipher_match, len; cbn [h_vers h_mac h_seq h_secret h_cipher c_kind c_alg c_key c_iv c_pos c_bs].
+    repeat split; eauto; try lia; try discriminate;
+    try (intros c0 Hc0; inversion Hc0; subst c0; eexists; cbn; auto).
+  - (* GCM, TLS 1.2 *)
+    destruct Hwf as (-> & Hv).
+    destruct (rt_prefix tv a key iv rd rd' pos bs ts tnc tnm rnc rnm tsec typ v1 v2 payload rnd Hv Hpl Hseq)
+      as (body & He & Hd & Hl & _).
+    assert (Hv' : (tv =? V13) = false) by lia.
+    unfold outer_typ, body_slack. rewrite Hv'.
+    exists body. eexists. eexists. split; [exact He|]. split; [exact Hd|].
+    unfold synced, half_wf, cipher_match, len; cbn [h_vers h_mac h_seq h_secret h_cipher c_kind c_alg c_key c_iv c_pos c_bs].
+    repeat split; eauto; try lia; try discriminate;
+    try (intros c0 Hc0; inversion Hc0; subst c0; eexists; cbn; auto).
+  - (* xor nonce: ChaCha20 in TLS 1.2, everything in TLS 1.3 *)
+    subst tm.
+    destruct (N.eq_dec tv V13) as [->|Hv].
+    + destruct (rt_tls13 a key iv rd rd' pos bs ts tnc tnm rnc rnm tsec typ v1 v2 payload rnd Htyp Hlen Hseq)
+        as (body & He & Hd & Hl).
+      change (outer_typ V13 typ) with rtAppData. change (body_slack V13) with 17.
+      exists body. eexists. eexists. split; [exact He|]. split; [exact Hd|].
+      unfold synced, half_wf, cipher_match, len; cbn [h_vers h_mac h_seq h_secret h_cipher c_kind c_alg c_key c_iv c_pos c_bs].
+      repeat split; eauto; try lia; try discriminate;
+      try (intros c0 Hc0; inversion Hc0; subst c0; eexists; cbn; auto).
+    + destruct (rt_xor12 tv a key iv rd rd' pos bs ts tnc tnm rnc rnm tsec typ v1 v2 payload rnd Hv Hpl Hseq)
+        as (body & He & Hd & Hl).
+      assert (Hv' : (tv =? V13) = false) by lia.
+      unfold outer_typ, body_slack. rewrite Hv'.
+      exists body. eexists. eexists. split; [exact He|]. split; [exact Hd|].
+      unfold synced, half_wf, cipher_match, len; cbn [h_vers h_mac h_seq h_secret h_cipher c_kind c_alg c_key c_iv c_pos c_bs].
+      repeat split; eauto; try lia; try discriminate;
+      try (intros c0 Hc0; inversion Hc0; subst c0; eexists; cbn; auto).
+  - (* CBC *)
+    destruct Hwf as ([m ->] & Hv).
+    destruct (Hcbc eq_refl) as (-> & -> & Hbs8).
+    assert (Hbs1 : (1 <= bs <= 256)%nat) by lia.
+    assert (Hr : (bs <= length rnd)%nat \/ (explicit_nonce_len
+              (mkHalf tv (Some (mkCipher KCbc a key iv false pos bs)) (Some m) ts tnc tnm tsec) = 0)%nat).
+    { cbn [explicit_nonce_len h_cipher c_kind h_vers c_bs] in *. destruct (V11 <=? tv); [left; exact Hrnd|right; reflexivity]. }
+    (* when no explicit IV is used the random source is irrelevant: pad it *)
+    set (rnd' := rnd ++ repeat 0 bs).
+    assert (Hrnd' : (bs <= length rnd')%nat) by (unfold rnd'; rewrite app_length, repeat_length; lia).
+    destruct (rt_cbc tv a key iv pos bs m ts tnc tnm rnc rnm tsec typ v1 v2 payload rnd' Hv Hpl Hseq Hbs1 Hrnd')
+      as (body & iv2 & He & Hd & Hl & _).
+    assert (He' : encrypt P (mkHalf tv (Some (mkCipher KCbc a key iv false pos bs)) (Some m) ts tnc tnm tsec)
+                    (hdr5 typ v1 v2 (len payload)) payload rnd
+                  = encrypt P (mkHalf tv (Some (mkCipher KCbc a key iv false pos bs)) (Some m) ts tnc tnm tsec)
+                    (hdr5 typ v1 v2 (len payload)) payload rnd').
+    { unfold encrypt. cbn [h_cipher]. f_equal. unfold enc_explicit.
+      cbn [explicit_nonce_len h_cipher c_kind h_vers c_bs is_cbc negb andb] in *.
+      destruct (V11 <=? tv).
+      - replace (length rnd <? bs)%nat with false by (symmetry; apply Nat.ltb_ge; lia).
+        replace (length rnd' <? bs)%nat with false by (symmetry; apply Nat.ltb_ge; lia).
+        unfold rnd'. rewrite firstn_app. replace (bs - length rnd)%nat with 0%nat by lia.
+        cbn [firstn]. rewrite app_nil_r. reflexivity.
+      - reflexivity. }
+    assert (Hv' : (tv =? V13) = false) by lia.
+    unfold outer_typ, body_slack. rewrite Hv'. rewrite He'.
+    exists body. eexists. eexists. split; [exact He|]. split; [exact Hd|].
+    pose proof (mac_len_le (m_alg m)).
+    unfold synced, half_wf, cipher_match, len; cbn [h_vers h_mac h_seq h_secret h_cipher c_kind c_alg c_key c_iv c_pos c_bs c_read].
+    repeat split; eauto; try lia; try discriminate;
+    try (intros c0 Hc0; inversion Hc0; subst c0; eexists; cbn; auto).
 Qed.
 
 End RT.
